@@ -1,5 +1,6 @@
 /-
-  C12 — call() and execute() agree (model level, T1).
+  C12 — call() and execute() agree (model level: T1 Retry.call/execute, T3 Policy.call/execute with a
+  retry loop, T4 sync = async at the Retry level).
 
   "For the same configuration and the same behaviour of the operation, clock and callbacks, every entry
   point performs the same operation invocations, strategy calls, sleeps, emitted events and breaker and
@@ -41,9 +42,15 @@
   `Lemmas/SimProcs.lean` (one lemma per shared procedure), `Lemmas/SimFacts.lean` (what the shared
   procedures leave alone / guarantee), `Lemmas/SimLock.lean`, `SimAttempt.lean`, `SimLoop.lean` (the two
   modes in lock step: delivery, failed-attempt tail, result path, exception path, handler ladders, one
-  attempt, induction on the loop's fuel, `runCall` vs `runExecute`).
+  attempt, induction on the loop's fuel, `runCall` vs `runExecute`), `Lemmas/SimPolicy{,2,3}.lean` (the
+  policy wrappers: breaker admission, what each wrapper does with the loop's result, `ensure_settled`).
+
+  T3 (`pcall_pexecute_agree`, below) and T4 (`async_irrelevant`) have their own headers further down.
+  Not proved: T3 for `hasRetry = false` (the no-retry branch), T2 (Policy without breaker vs Retry), and
+  the general form of T3 in which execute() runs on the world with the breaker-classification answer
+  removed (see the T3 header).
 -/
-import Redress.Lemmas.SimLoop
+import Redress.Lemmas.SimPolicy3
 
 namespace Redress.Props.C12
 
@@ -103,7 +110,7 @@ theorem call_execute_agree_env (cfg : Cfg) (w : World)
   | error e wc =>
     cases r2 with
     | ok o we =>
-      obtain ⟨hπ, hd⟩ := h
+      obtain ⟨hπ, hd, _⟩ := h
       obtain ⟨h1, h2, h3, h4, h5, h6, h7, _, _⟩ := (π_iff _ _).mp hπ
       exact ⟨h3, h1, h2, h6, h7, h4, h5, by simp only [toRes, toResO]; rw [dr_tl]; exact hd⟩
     | error e' we =>
@@ -136,7 +143,7 @@ theorem call_execute_agree (cfg : Cfg) (w : World)
 /-! ### the environment the driver's self-check `Twin.callExecuteAgree` uses -/
 
 /-- `Twin.c12Env` (what the driver requires of both logs before comparing the two modes) implies every
-    hypothesis of T1 except `hop`. -/
+    hypothesis of T1. -/
 theorem hyps_of_c12Env (cfg : Cfg) (t : List (Req × Ans)) (h : Twin.c12Env cfg t = true) :
     cfg.attemptStart = none ∧ cfg.attemptEnd = none ∧
     (∀ x ∈ t, x.1 = .abortIf → ∀ e d, x.2 ≠ .raise e d) ∧
@@ -161,21 +168,34 @@ theorem hyps_of_c12Env (cfg : Cfg) (t : List (Req × Ans)) (h : Twin.c12Env cfg 
       simp only [Bool.not_eq_true', Bool.or_eq_false_iff] at this
       exact this.1.1
 
+/-- … and `hop` -/
+theorem hop_of_c12Env (cfg : Cfg) (t : List (Req × Ans)) (h : Twin.c12Env cfg t = true) :
+    ∀ x ∈ t, ∀ n e d, x = (.op n, .raise e d) → e ≠ .libRuntimeError ∧ ∀ st, e ≠ .libCircuitOpen st := by
+  unfold Twin.c12Env at h
+  simp only [Bool.and_eq_true, List.all_eq_true] at h
+  intro x hx n e d hxe
+  have := h.2 x hx
+  subst hxe
+  simp only [Bool.not_eq_true'] at this
+  constructor
+  · rintro rfl; simp [Twin.isLibMadeTerminal] at this
+  · rintro st rfl; simp [Twin.isLibMadeTerminal] at this
+
 /-- T1 under the driver's own environment predicate (on the call() log, oldest first as the driver
-    passes it) plus `hop`. -/
+    passes it). -/
 theorem call_execute_agree_c12Env (cfg : Cfg) (w : World)
-    (h : Twin.c12Env cfg (runEntry cfg .call w).2.trace.reverse = true)
-    (hop : ∀ x ∈ (runEntry cfg .call w).2.trace, ∀ n e d, x = (.op n, .raise e d) →
-      e ≠ .libRuntimeError ∧ ∀ st, e ≠ .libCircuitOpen st) :
+    (h : Twin.c12Env cfg (runEntry cfg .call w).2.trace.reverse = true) :
     let rc := runEntry cfg .call w
     let re := runEntry cfg .execute w
     re.2.trace = rc.2.trace ∧ re.2.answers = rc.2.answers ∧ re.2.now = rc.2.now ∧
     re.2.budget = rc.2.budget ∧ re.2.breaker = rc.2.breaker ∧ re.2.rs = rc.2.rs ∧
     Twin.deliverRelated rc.1 re.1 = true := by
   obtain ⟨hs, he, hclean, hab⟩ := hyps_of_c12Env cfg _ h
+  have hop := hop_of_c12Env cfg _ h
   exact call_execute_agree cfg w hs he
     (fun x hx => hclean x (List.mem_reverse.mpr hx))
-    (fun x hx => hab x (List.mem_reverse.mpr hx)) hop
+    (fun x hx => hab x (List.mem_reverse.mpr hx))
+    (fun x hx => hop x (List.mem_reverse.mpr hx))
 
 /-! ### named corollaries (same hypotheses as T1, bundled) -/
 
@@ -234,6 +254,121 @@ theorem returns_iff_ok (cfg : Cfg) (w : World) (h : Hyp cfg w) (v : Nat)
     exact ⟨o, t, rfl, hd.1, hd.2⟩
   | ret v' => rw [hx] at hd; simp [deliverRelated] at hd
   | raised e => rw [hx] at hd; simp [deliverRelated] at hd
+
+/-! ### T3: `Policy.call` vs `Policy.execute`, with a retry loop (`cfg.hasRetry = true`)
+
+The wrappers differ in more than delivery (all found while proving; the first three are implementation
+findings F11–F13 of the project, the fourth is an observation):
+  * `max_attempts = 0`: call() classifies the library's own `RuntimeError` for the breaker, execute()
+    records `UNKNOWN` (F11) — excluded by `hmax`;
+  * the operation's `CircuitOpenError` (nested policy) re-raised by the loop: call() records a *cancel*,
+    execute() a *failure* (F12) — excluded by `hco`;
+  * (no-retry mode, F13, is outside this theorem: `hret`);
+  * call() runs `record_success()` inside its `try`, execute() outside: a hook raising a BaseException-only
+    kind on the `circuit_closed` event gives call() an extra `record_cancel` — excluded by `hhook`;
+  * when the loop re-raises the operation's last exception, call() classifies it once more for the breaker
+    (`classify_for_breaker`), execute() uses `outcome.last_class`.  That extra classifier call consumes an
+    oracle answer and lets its duration pass, so on the SAME world the two runs can only agree when it
+    returns the recorded class (`hclsOK`), takes no time and is not followed by further callback
+    invocations (`hclsLast`: the newest callback exchange of the call() log is that classification).  The
+    general statement — execute() on the world with that one answer removed — needs an
+    "answers beyond those consumed are irrelevant" lemma for every procedure and is not proved here.
+Conclusion: the logs agree after `Twin.projC12` (which drops classifier calls and attempt hooks), the clock,
+budget, breaker, `_RetryState` and `ExecutionContext` agree, and the results are `deliverRelated`. -/
+
+theorem toResO_world (tl : Bool) (r : EStateM.Result Exn World Outcome) : (toResO tl r).2 = finalWorld r := by
+  cases r <;> rfl
+
+/-- **T3 (C12, Policy.call() vs Policy.execute(), retrying policies).** -/
+theorem pcall_pexecute_agree (cfg : Cfg) (w : World)
+    (hret : cfg.hasRetry = true) (hs : cfg.attemptStart = none) (he : cfg.attemptEnd = none)
+    (hmax : 0 < cfg.maxAttempts)
+    (hclean : ∀ x ∈ (runEntry cfg .pcall w).2.trace, x.1 = .abortIf → ∀ e d, x.2 ≠ .raise e d)
+    (hab : ∀ x ∈ (runEntry cfg .pcall w).2.trace, (∀ n, x.1 ≠ .op n) →
+      ∀ e d, x.2 = .raise e d → e.isAbort = false)
+    (hop : ∀ x ∈ (runEntry cfg .pcall w).2.trace, ∀ n e d, x = (.op n, .raise e d) →
+      e ≠ .libRuntimeError ∧ ∀ st, e ≠ .libCircuitOpen st)
+    (hco : ∀ id, (runEntry cfg .pcall w).1 ≠ .raised (.circuitOpen id))
+    (hhook : HookOK (runEntry cfg .pcall w).2.trace)
+    (hclsOK : ∀ x ∈ (runEntry cfg .pcall w).2.trace, ∀ e,
+      (runEntry cfg .pcall w).2.rs.lastExc = some e → x.1 = .classify e.ref →
+      ∃ c d, x.2 = .klass c d ∧ (runEntry cfg .pcall w).2.rs.lastClass = some c.klass)
+    (hclsLast : ∀ e, (runEntry cfg .pcall w).1 = .raised e →
+      (runEntry cfg .pcall w).2.rs.lastExc = some e → e.isException = true →
+      ∃ a rest, (runEntry cfg .pcall w).2.trace.filter (fun x => !Twin.isInternal x.1)
+          = (.classify e.ref, a) :: rest ∧ a.dur = 0) :
+    let rc := runEntry cfg .pcall w
+    let re := runEntry cfg .pexecute w
+    Twin.projC12 re.2.trace = Twin.projC12 rc.2.trace ∧ re.2.now = rc.2.now ∧
+    re.2.budget = rc.2.budget ∧ re.2.breaker = rc.2.breaker ∧ re.2.rs = rc.2.rs ∧ re.2.xc = rc.2.xc ∧
+    re.2.opCalls = rc.2.opCalls ∧ Twin.deliverRelated rc.1 re.1 = true := by
+  intro rc re
+  have henv := env_of_hyps _ hclean hab hop
+  have hA : runEntry cfg .pcall w
+      = toRes (Policy.call cfg { w with trace := [], timeline := [], opCalls := 0 }) := rfl
+  have hB : re = toResO (cfg.timeline && cfg.hasRetry)
+      (Policy.execute cfg { w with trace := [], timeline := [], opCalls := 0 }) := rfl
+  have hrc : rc = toRes (Policy.call cfg { w with trace := [], timeline := [], opCalls := 0 }) := rfl
+  rw [hA, policy_run_call] at henv hco hhook hclsOK hclsLast
+  rw [hrc, hB, policy_run_call, policy_run_execute]
+  generalize ({ w with trace := [], timeline := [], opCalls := 0 } : World) = w0 at *
+  have hx0 : ({ w0 with xc := { start := w0.now } } : World).xc.settled = false := rfl
+  generalize ({ w0 with xc := { start := w0.now } } : World) = w1 at *
+  have key : PolHyp cfg (Policy.callAdmitted cfg w1) → PolRel cfg (Policy.callAdmitted cfg w1) (Policy.executeAdmitted cfg w1) :=
+    admitted_rel hret hs he hmax w1 hx0
+  cases hra : Policy.callAdmitted cfg w1 with
+  | ok v wa =>
+    rw [hra] at henv hco hhook hclsOK hclsLast key
+    have H : PolHyp cfg (.ok v wa) :=
+      { env := henv.mono (settle_grows cfg wa)
+        hook := hhook.mono (settle_grows cfg wa)
+        co := fun _ _ h => by cases h
+        clsOK := fun x hx e hle hr => by
+          have := hclsOK x (settle_grows cfg wa x hx) e (by show (settle cfg wa).rs.lastExc = _; rw [settle_rs]; exact hle) hr
+          obtain ⟨c, d, h1, h2⟩ := this
+          exact ⟨c, d, h1, by have h3 : (settle cfg wa).rs.lastClass = _ := h2; rw [settle_rs] at h3; exact h3⟩
+        clsLast := fun _ _ h => by cases h }
+    have hk := key H
+    cases hrb : Policy.executeAdmitted cfg w1 with
+    | error e wb => rw [hrb] at hk; exact hk.elim
+    | ok o wb =>
+      rw [hrb] at hk
+      obtain ⟨hp, hd⟩ := hk
+      exact ⟨hp.trace, hp.now, hp.budget, hp.breaker, hp.rs, hp.xc, hp.opCalls,
+        by simp only [toRes, toResO]; rw [dr_tl]; exact hd⟩
+  | error e wa =>
+    rw [hra] at henv hco hhook hclsOK hclsLast key
+    have H : PolHyp cfg (.error e wa) :=
+      { env := henv.mono (settle_grows cfg wa)
+        hook := hhook.mono (settle_grows cfg wa)
+        co := fun id w' h => by
+          injection h with h1 _
+          exact hco id (by rw [h1]; rfl)
+        clsOK := fun x hx e' hle hr => by
+          have := hclsOK x (settle_grows cfg wa x hx) e' (by show (settle cfg wa).rs.lastExc = _; rw [settle_rs]; exact hle) hr
+          obtain ⟨c, d, h1, h2⟩ := this
+          exact ⟨c, d, h1, by have h3 : (settle cfg wa).rs.lastClass = _ := h2; rw [settle_rs] at h3; exact h3⟩
+        clsLast := fun e' w' h hle hex => by
+          injection h with h1 h2
+          subst h1 h2
+          have := hclsLast e rfl (by show (settle cfg wa).rs.lastExc = _; rw [settle_rs]; exact hle) hex
+          obtain ⟨a, rest, h3, h4⟩ := this
+          have h5 : (settle cfg wa).trace.filter (fun x => !Twin.isInternal x.1) = _ := h3
+          rw [settle_filter] at h5
+          exact ⟨a, rest, h5, h4⟩ }
+    have hk := key H
+    cases hrb : Policy.executeAdmitted cfg w1 with
+    | ok o wb =>
+      rw [hrb] at hk
+      obtain ⟨hp, hd⟩ := hk
+      exact ⟨hp.trace, hp.now, hp.budget, hp.breaker, hp.rs, hp.xc, hp.opCalls,
+        by simp only [toRes, toResO]; rw [dr_tl]; exact hd⟩
+    | error e' wb =>
+      rw [hrb] at hk
+      obtain ⟨hp, he'⟩ := hk
+      subst he'
+      exact ⟨hp.trace, hp.now, hp.budget, hp.breaker, hp.rs, hp.xc, hp.opCalls,
+        by simp [toRes, toResO, dr_raised]⟩
 
 /-! ### T4 (Retry level): sync and async entry points are the same model function
 
@@ -347,6 +482,31 @@ example :
   · intro x hx
     simp only [t, List.mem_cons, List.not_mem_nil, or_false] at hx
     rcases hx with rfl | rfl | rfl | rfl <;> simp
+
+/-- T3's hook hypothesis: a `circuit_*` hook may raise an `Exception` (it is swallowed), any other hook may
+    even raise KeyboardInterrupt -/
+example : HookOK
+    [ (.metric .circuitOpened 0 0 {}, .raise (.ordinary 1 .unknown) 0),
+      (.metric .retry 1 3 {}, .raise .keyboardInterrupt 0),
+      (.log .circuitClosed 0 0 {} none, .unit 0) ] := by
+  intro x hx
+  simp only [List.mem_cons, List.not_mem_nil, or_false] at hx
+  rcases hx with rfl | rfl | rfl <;> simp [circuitHook, FX.circuitEv, Exn.isException]
+
+/-- T3's positional hypothesis on a typical log of a call() that re-raises the operation's exception
+    `ordinary 1` under a breaker: the newest callback exchange is the breaker classification, answered in
+    no time (the loop's own classification of the same exception took 2 ticks) -/
+example :
+    ([ (Req.breakerFailure .permanent, Ans.recorded (some .circuitOpened) .opened),
+       (Req.classify (Exn.ordinary 1 .transient).ref, Ans.klass { klass := .permanent } 0),
+       (Req.classify (Exn.ordinary 1 .transient).ref, Ans.klass { klass := .permanent } 2),
+       (Req.op 1, Ans.raise (.ordinary 1 .transient) 1),
+       (Req.breakerAllow, Ans.admit true .closed none) ] : List (Req × Ans)).filter
+        (fun x => !Twin.isInternal x.1)
+      = (Req.classify (Exn.ordinary 1 .transient).ref, Ans.klass { klass := .permanent } 0) ::
+        [ (Req.classify (Exn.ordinary 1 .transient).ref, Ans.klass { klass := .permanent } 2),
+          (Req.op 1, Ans.raise (.ordinary 1 .transient) 1) ] := by
+  rfl
 
 /-- a configuration without attempt hooks -/
 example : ({} : Cfg).attemptStart = none ∧ ({} : Cfg).attemptEnd = none := ⟨rfl, rfl⟩
